@@ -12,7 +12,7 @@
     ([Base.b_in]).  The invariant is proved along [inner] / [outer] / [from_corner] / [ec_corner] / [eb_encode] for every
     well-formed table ([encode_hist]); [hist_nth] gives the index form used by the decoder-side script. *)
 From Coq Require Import ZArith List Bool Lia Arith PeanoNat.
-From Draco Require Import Model.CornerTable Model.EbEncoder Proofs.CornerTable_proofs Proofs.EbEncoder_proofs.
+From Draco Require Import Model.CornerTable Model.EbEncoder Proofs.CornerTable_proofs Proofs.EbEncoder_proofs Proofs.EbTrace_proofs.
 Import ListNotations.
 
 (** ** index form of the history facts (decoder order): [Q] = processed_connectivity_corners_ as EncodeConnectivity leaves it,
@@ -32,6 +32,12 @@ Definition efact (c2v : list nat) (opp : list (option nat)) (nf : nat) (Q : list
          forall j', k < j' < length Q -> nth j' Q 0 / 3 <> x / 3)) \/
    y = 1%Z).
 
+(** an interior start face (index form, without the hole ids): every corner has a neighbour, no vertex lies on a boundary *)
+Definition IFc' (c2v : list nat) (opp : list (option nat)) (nf : nat) (ic : nat) : Prop :=
+  ic < 3 * nf /\ forall t, t < 3 * nf -> t / 3 = ic / 3 -> opp_at opp t <> None /\
+    forall x, x < 3 * nf -> is_degenerated c2v (x / 3) = false -> vtx c2v x = vtx c2v t ->
+      opp_at opp (next_c x) <> None /\ opp_at opp (prev_c x) <> None.
+
 Lemma skipn_S_tl {A} (l : list A) : forall k, skipn (S k) l = tl (skipn k l).
 Proof. induction l as [|a l IH]; intros [|k]; cbn [skipn tl]; auto. rewrite <- IH. reflexivity. Qed.
 
@@ -41,6 +47,116 @@ Proof.
   - apply H3. apply in_or_app. auto.
   - apply IH; auto.
 Qed.
+
+Ltac hstep H :=
+  match type of H with
+  | ebind ?e _ = EOk _ => let E := fresh "E" in destruct e eqn:E; cbn [ebind] in H; try discriminate
+  | (if ?b then _ else _) = EOk _ => destruct b
+  | match ?l with [] => _ | _ :: _ => _ end = EOk _ => let E := fresh "Est" in destruct l eqn:E; try discriminate
+  end.
+
+Lemma mark_all (b : bool) sa v s1 :
+  (if b then EOk sa else vvl <-- eset (vv sa) v true ;; EOk (with_vv sa vvl)) = EOk s1 ->
+  pcc s1 = pcc sa /\ syms s1 = syms sa /\ stack s1 = stack sa.
+Proof.
+  destruct b; intros X. inversion X; subst; auto.
+  destruct (eset (vv sa) v true); cbn [ebind] in X; try discriminate. inversion X; subst; auto.
+Qed.
+Lemma check_split_stack s e o : stack (check_split s e o) = stack s.
+Proof. unfold check_split. destruct o; auto. destruct (split_symbol_on_face _ _); auto. Qed.
+Lemma encode_hole_stack c2v opp hid s c first s' : encode_hole c2v opp hid s c first = EOk s' -> stack s' = stack s.
+Proof.
+  unfold encode_hole. intros H.
+  repeat match type of H with
+  | ebind ?e _ = EOk _ => destruct e; cbn [ebind] in H; try discriminate
+  | match ?h with Some _ => _ | None => _ end = EOk _ => destruct h; try discriminate
+  end.
+  inversion H; subst. auto.
+Qed.
+
+(** the shape of what one run of [inner] appends to the history (no invariant needed) *)
+Definition blk_shape (s s' : est) (Yn : list Z) : Prop :=
+  match Yn with
+  | [] => s' = s
+  | y0 :: Yr => ~ In 7%Z Yr /\ ~ In 1%Z Yr /\ (y0 = 7%Z -> stack s' = tl (stack s)) /\
+                (y0 = 1%Z \/ y0 = 7%Z \/ y0 = 0%Z \/ y0 = 3%Z \/ y0 = 5%Z)
+  end.
+
+Lemma inner_shape c2v opp hid : forall k s c s', inner c2v opp hid k s (Some c) = EOk s' ->
+  exists Pn Yn, pcc s' = Pn ++ pcc s /\ syms s' = Yn ++ syms s /\ length Pn = length Yn /\
+    (Pn <> [] -> last Pn 0 = c) /\ blk_shape s s' Yn /\ (k <> 0 -> Yn <> []).
+Proof.
+  induction k as [|k IH]; intros s c s' H; cbn [inner] in H.
+  - inversion H; subst. exists [], []. repeat split; auto; congruence.
+  - cbv zeta in H.
+    assert (Step : forall s3 o y0, inner c2v opp hid k s3 o = EOk s' -> pcc s3 = c :: pcc s -> syms s3 = y0 :: syms s ->
+              stack s3 = stack s -> (y0 = 0 \/ y0 = 3 \/ y0 = 5)%Z ->
+              exists Pn Yn, pcc s' = Pn ++ pcc s /\ syms s' = Yn ++ syms s /\ length Pn = length Yn /\
+                (Pn <> [] -> last Pn 0 = c) /\ blk_shape s s' Yn /\ (S k <> 0 -> Yn <> [])).
+    { intros s3 o y0 E3 P3 Y3 St3 Hy.
+      assert (E3' : exists Pn Yn, pcc s' = Pn ++ pcc s3 /\ syms s' = Yn ++ syms s3 /\ length Pn = length Yn /\
+                (Pn <> [] -> last Pn 0 = match o with Some nx => nx | None => 0 end) /\ blk_shape s3 s' Yn).
+      { destruct o as [nx|]; [destruct (IH _ _ _ E3) as (Pn & Yn & B1 & B2 & B3 & B4 & B5 & _); exists Pn, Yn; auto|]. destruct k; cbn in E3; [|discriminate]. inversion E3; subst.
+        exists [], []. repeat split; auto. }
+      clear E3. destruct E3' as (Pn & Yn & A1 & A2 & A3 & A4 & A5).
+      exists (Pn ++ [c]), (Yn ++ [y0]). rewrite A1, A2, P3, Y3, <- !app_assoc. cbn [app]. split; auto. split; auto.
+      split; [rewrite !app_length; cbn; lia|]. split; [intros _; apply last_last|].
+      split; [|intros _; destruct Yn; discriminate].
+      destruct Yn as [|y1 Yr]; cbn [app blk_shape] in *.
+      - subst s'. split; [tauto|]. split; [tauto|]. split; [intros ->; destruct Hy as [X|[X|X]]; discriminate|]. tauto.
+      - destruct A5 as (B1 & B2 & B3 & B4). split; [|split; [|split; auto]].
+        + intro X. apply in_app_or in X. destruct X as [X|[X|[]]]; auto. subst y0. destruct Hy as [X|[X|X]]; discriminate.
+        + intro X. apply in_app_or in X. destruct X as [X|[X|[]]]; auto. subst y0. destruct Hy as [X|[X|X]]; discriminate.
+        + intros X. rewrite (B3 X), St3. auto. }
+    hstep H. hstep H. hstep H. hstep H. hstep H.
+    match goal with X : (if _ then EOk _ else _) = EOk _ |- _ => apply mark_all in X; cbn in X; destruct X as (P1 & Y1 & St1) end.
+    hstep H.
+    + hstep H. apply (Step _ _ 0%Z H); unfold TOPOLOGY_C; cbn; auto; try congruence.
+    + hstep H. hstep H. hstep H. hstep H.
+      * hstep H. hstep H.
+        -- hstep H. inversion H; subst. exists [c], [7%Z]. cbn [app emit with_syms with_stack pcc syms stack length last blk_shape].
+           rewrite !(proj1 (check_split_hist _ _ _)), !(proj2 (check_split_hist _ _ _)), P1, Y1.
+           split; auto. split; auto. split; auto. split; auto. split; [|discriminate]. split; [tauto|]. split; [tauto|]. split; [|tauto].
+           intros _. cbn in Est. rewrite !check_split_stack, St1 in Est. rewrite Est. auto.
+        -- apply (Step _ _ 5%Z H); unfold TOPOLOGY_R; cbn; rewrite ?(proj1 (check_split_hist _ _ _)), ?(proj2 (check_split_hist _ _ _)), ?check_split_stack; auto; try congruence.
+      * hstep H. hstep H.
+        -- apply (Step _ _ 3%Z H); unfold TOPOLOGY_L; cbn; rewrite ?(proj1 (check_split_hist _ _ _)), ?(proj2 (check_split_hist _ _ _)), ?check_split_stack; auto; try congruence.
+        -- hstep H.
+           match goal with X : match ?h with Some _ => _ | None => _ end = EOk ?sx |- _ =>
+             assert (P6 : pcc sx = c :: pcc s /\ syms sx = TOPOLOGY_S :: syms s);
+             [ destruct h as [hole|];
+               [ hstep X; hstep X;
+                 [ inversion X; subst; cbn; split; congruence
+                 | apply encode_hole_hist in X; cbn in X; destruct X as [-> ->]; split; congruence ]
+               | inversion X; subst; cbn; split; congruence ] | ] end.
+           destruct P6 as [P6 Y6]. hstep H. inversion H; subst.
+           exists [c], [1%Z]. cbn [app with_f2s with_stack pcc syms stack length last blk_shape]. rewrite P6, Y6.
+           split; auto. split; auto. split; auto. split; auto. split; [|discriminate]. split; [tauto|]. split; [tauto|]. split; [discriminate|tauto].
+Qed.
+
+(** ** the runs (one per start-face bit), newest first: each appended a non-empty block to the history whose oldest entry
+    is the run's first corner; without S symbol the block is  E :: (no E);  an interior start configuration comes with its
+    start-face corner [ic] (pushed onto init_face_connectivity_corners), Opposite(ic) = the run's first corner *)
+Inductive RUNS (opp : list (option nat)) (IP : nat -> Prop) : list bool -> list nat -> list nat -> list Z -> Prop :=
+| R_nil : RUNS opp IP [] [] [] []
+| R_run (b : bool) bits inits inits' P Y Pn Yn : RUNS opp IP bits inits P Y -> Pn <> [] -> length Pn = length Yn ->
+    (~ In 1%Z Yn -> exists Yr, Yn = 7%Z :: Yr /\ ~ In 7%Z Yr) ->
+    (if b then exists ic, inits' = ic :: inits /\ opp_at opp ic = Some (last Pn 0) /\ IP ic else inits' = inits) ->
+    RUNS opp IP (b :: bits) inits' (Pn ++ P) (Yn ++ Y).
+
+Lemma last_app2 {A} (l1 l2 : list A) d : l2 <> [] -> last (l1 ++ l2) d = last l2 d.
+Proof.
+  intros H. induction l1 as [|a l1 IH]; cbn [app]; auto. destruct (l1 ++ l2) eqn:E.
+  - apply app_eq_nil in E. destruct E. congruence.
+  - rewrite <- IH. reflexivity.
+Qed.
+
+Lemma RUNS_impl opp (IP IP' : nat -> Prop) : (forall x, IP x -> IP' x) -> forall b i P Y, RUNS opp IP b i P Y -> RUNS opp IP' b i P Y.
+Proof.
+  intros H b i P Y R. induction R; [constructor|]. econstructor; eauto.
+  destruct b; auto. destruct H3 as (ic & A & B & C). exists ic. auto.
+Qed.
+
 
 Section Enc.
 Variables (c2v : list nat) (opp : list (option nat)) (nf nv nh : nat) (hid : list (option nat)).
@@ -422,14 +538,88 @@ Proof.
   - unfold SG. cbn [with_stack stack vf]. constructor; auto.
 Qed.
 
+
+(** what a run appends to the history *)
+Lemma outer_block ifs : forall fuel s s', Inv ifs s -> stack_ok s -> SG s -> (forall nxt, hist ifs nxt (pcc s) (syms s)) -> NSI s ->
+  outer c2v opp hid fuel s = EOk s' ->
+  exists Pn Yn, pcc s' = Pn ++ pcc s /\ syms s' = Yn ++ syms s /\ length Pn = length Yn /\ (stack s = [] -> Pn = []) /\
+    (forall c, stack s = [Some c] -> nth (c / 3) (vf s) false = false ->
+       Pn <> [] /\ last Pn 0 = c /\ (~ In 1%Z Yn -> exists Yr, Yn = 7%Z :: Yr /\ ~ In 7%Z Yr)).
+Proof.
+  induction fuel as [|k IH]; intros s s' I SO Sg Hh Ns E; cbn [outer] in E; [discriminate|].
+  destruct (stack s) as [|top r] eqn:St.
+  - inversion E; subst. exists [], []. split; [reflexivity|]. split; [reflexivity|]. split; [reflexivity|]. split; [reflexivity|]. intros c0 X. discriminate.
+  - assert (Pop : outer c2v opp hid k (with_stack s r) = EOk s' -> (forall c, top = Some c -> nth (c / 3) (vf s) false = true) ->
+       exists Pn Yn, pcc s' = Pn ++ pcc s /\ syms s' = Yn ++ syms s /\ length Pn = length Yn /\ (top :: r = [] -> Pn = []) /\
+         (forall c, top :: r = [Some c] -> nth (c / 3) (vf s) false = false ->
+            Pn <> [] /\ last Pn 0 = c /\ (~ In 1%Z Yn -> exists Yr, Yn = 7%Z :: Yr /\ ~ In 7%Z Yr))).
+    { intros E' Hv0. destruct (IH (with_stack s r) s') as (Pn & Yn & A1 & A2 & A3 & _); [apply Inv_stack; auto| | |exact Hh|exact Ns|exact E'|].
+      - unfold stack_ok, EbEncoder_proofs.stack_ok in *. cbn [with_stack stack vv]. rewrite St in SO. inversion SO; auto.
+      - unfold SG in *. cbn [with_stack stack vf]. rewrite St in Sg. inversion Sg; auto.
+      - exists Pn, Yn. split; auto. split; auto. split; auto. split; [discriminate|].
+        intros c X U. inversion X; subst. rewrite (Hv0 c eq_refl) in U. discriminate. }
+    destruct top as [c|]; [|apply Pop; auto; intros c X; discriminate].
+    assert (G : gate_ok (vv s) c). { unfold stack_ok, EbEncoder_proofs.stack_ok in SO. rewrite St in SO. inversion SO; auto. }
+    assert (Hf3 : c / 3 < nf) by (destruct G; apply Nat.div_lt_upper_bound; lia).
+    rewrite (eget_lt (vf s) (c / 3) false) in E by (rewrite (b_vf _ _ _ _ _ _ (i_base _ _ _ _ _ _ I)); auto). cbn [ebind] in E.
+    destruct (nth (c / 3) (vf s) false) eqn:Ef; [apply Pop; auto; intros c0 X; inversion X; subst; auto|].
+    rewrite NF_eq in E.
+    destruct (inner c2v opp hid nf s (Some c)) as [s1| | |] eqn:E1; cbn [ebind] in E; try discriminate.
+    assert (Gv : gatev (vf s) c). { unfold SG in Sg. rewrite St in Sg. inversion Sg; auto. }
+    assert (Uk : ucnt (vf s) <= nf). { rewrite <- (b_vf _ _ _ _ _ _ (i_base _ _ _ _ _ _ I)). unfold ucnt. lia. }
+    destruct (inner_hist ifs nf s c s1) as (I1 & SO1 & Sg1 & H1 & M1 & N1); auto. { rewrite St. discriminate. }
+    destruct (inner_shape c2v opp hid nf s c s1 E1) as (Pn1 & Yn1 & B1 & B2 & B3 & B4 & B5 & B6).
+    destruct (IH s1 s' I1 SO1 Sg1 H1 N1 E) as (Pn2 & Yn2 & C1 & C2 & C3 & C4 & _).
+    exists (Pn2 ++ Pn1), (Yn2 ++ Yn1). rewrite C1, C2, B1, B2, !app_assoc. split; auto. split; auto.
+    split; [rewrite !app_length; lia|]. split; [discriminate|].
+    intros c0 X _. inversion X; subst c0 r. clear X.
+    assert (Ny : Yn1 <> []) by (apply B6; lia).
+    assert (Np : Pn1 <> []) by (intro X; subst Pn1; destruct Yn1; [congruence|discriminate]).
+    split; [intro X; apply app_eq_nil in X; destruct X; congruence|].
+    split; [rewrite last_app2 by auto; auto|].
+    intros N1'. destruct Yn1 as [|y0 Yr1]; [congruence|]. cbn [blk_shape] in B5. destruct B5 as (S1 & S2 & S3 & S4).
+    assert (Ey : y0 = 7%Z).
+    { destruct S4 as [X|[X|X]]; auto.
+      - exfalso. apply N1'. apply in_or_app. right. left. auto.
+      - exfalso. specialize (H1 None). rewrite B1, B2 in H1. destruct Pn1 as [|p Pr]; [congruence|].
+        cbn [app] in H1. inversion H1 as [|? ? ? ? ? Hh0 Hf]; subst. destruct Hf as (_ & _ & _ & Hd). cbv zeta in Hd.
+        destruct X as [X|[X|X]]; subst y0;
+          destruct Hd as [(D1 & _)|[(D1 & D2 & _)|[(D1 & D2 & _)|[(D1 & D2 & _)|D1]]]]; try discriminate; congruence. }
+    subst y0. rewrite (S3 eq_refl), St in C4. cbn [tl] in C4. specialize (C4 eq_refl). subst Pn2. destruct Yn2; [|discriminate].
+    cbn [app]. exists Yr1. auto.
+Qed.
+
+Lemma from_corner_block ifs s c s' : Inv ifs s -> gate_ok (vv s) c -> gatev (vf s) c ->
+  (forall nxt, hist ifs nxt (pcc s) (syms s)) -> NSI s -> nth (c / 3) (vf s) false = false ->
+  from_corner c2v opp hid s (Some c) = EOk s' ->
+  exists Pn Yn, pcc s' = Pn ++ pcc s /\ syms s' = Yn ++ syms s /\ length Pn = length Yn /\
+    Pn <> [] /\ last Pn 0 = c /\ (~ In 1%Z Yn -> exists Yr, Yn = 7%Z :: Yr /\ ~ In 7%Z Yr).
+Proof.
+  intros I G Gv Hh Ns U E. unfold from_corner in E.
+  destruct (outer_block ifs (outer_fuel c2v) (with_stack s [Some c]) s') as (Pn & Yn & A1 & A2 & A3 & _ & A5);
+    [apply Inv_stack; auto| | |exact Hh|exact Ns|exact E|].
+  - unfold stack_ok, EbEncoder_proofs.stack_ok. cbn [with_stack stack vv]. constructor; auto.
+  - unfold SG. cbn [with_stack stack vf]. constructor; auto.
+  - destruct (A5 c eq_refl U) as (X1 & X2 & X3). exists Pn, Yn. auto.
+Qed.
+
 (** the loop over all corners of EncodeConnectivity *)
+(** an interior start face: every corner has a neighbour, every vertex is interior *)
+Definition IFc (ic : nat) : Prop :=
+  ic < 3 * nf /\ forall x, x < 3 * nf -> x / 3 = ic / 3 -> opp_at opp x <> None /\ nth (vtx c2v x) hid None = None.
+(** different interior start faces have no vertex in common *)
+Definition IDJ (inits : list nat) : Prop :=
+  forall m1 m2 ic1 ic2, m1 < m2 -> nth_error (rev inits) m1 = Some ic1 -> nth_error (rev inits) m2 = Some ic2 ->
+    forall x1 x2, x1 < 3 * nf -> x2 < 3 * nf -> x1 / 3 = ic1 / 3 -> x2 / 3 = ic2 / 3 -> vtx c2v x1 <> vtx c2v x2.
+
 Definition ECH (st : eres (est * list bool * list nat)) : Prop :=
   forall s bits inits, st = EOk (s, bits, inits) ->
-    (forall nxt, hist (faces (rev inits)) nxt (pcc s) (syms s)) /\ NSI s.
+    (forall nxt, hist (faces (rev inits)) nxt (pcc s) (syms s)) /\ NSI s /\
+    RUNS opp IFc bits inits (pcc s) (syms s) /\ IDJ inits.
 
 Lemma ec_corner_hist done st c_id : c_id < 3 * nf -> ECinv c2v opp nf nv nh done st -> ECH st -> ECH (ec_corner c2v opp hid st c_id).
 Proof.
-  intros Hc (s & bits & inits & -> & I & Fi & Cb & CL & DN & T3) HE. destruct (HE s bits inits eq_refl) as (Hh & Ns). clear HE.
+  intros Hc (s & bits & inits & -> & I & Fi & Cb & CL & DN & T3) HE. destruct (HE s bits inits eq_refl) as (Hh & Ns & HR & HD). clear HE.
   unfold ec_corner. cbn [ebind].
   assert (Hf3 : c_id / 3 < nf) by (apply Nat.div_lt_upper_bound; lia).
   pose proof (i_base _ _ _ _ _ _ I) as B0.
@@ -494,11 +684,36 @@ Proof.
     assert (Ho3 : oc / 3 < nf) by (destruct Go; apply Nat.div_lt_upper_bound; lia).
     cbn [s1 with_vf vf]. rewrite (eget_lt (upd (vf s) (c_id / 3) true) (oc / 3) false) by (rewrite upd_length, (b_vf _ _ _ _ _ _ B0); auto). cbn [ebind].
     destruct (nth (oc / 3) (upd (vf s) (c_id / 3) true) false) eqn:Eov.
-    { intros s0 b0 i0 E. inversion E; subst. auto. }
+    { exfalso. rewrite nth_upd_neq in Eov by (rewrite <- HI; auto).
+      apply (CL oc (next_c start)). destruct Go as (Lo & _). repeat split; auto. rewrite next_face, HI. auto. }
     fold s1. destruct (from_corner c2v opp hid s1 (Some oc)) as [s'| | |] eqn:E'; cbn [ebind]; try (intros s0 b0 i0 E; discriminate).
-    destruct (from_corner_hist _ s1 oc s' I1 Go) as (R1 & R2 & R3 & R4); auto.
+    assert (Gvo : gatev (vf s1) oc).
     { intros x0 E0. rewrite Eo' in E0. inversion E0; subst x0. rewrite next_face, HI, Vf1. apply nth_upd_eq. rewrite (b_vf _ _ _ _ _ _ B0). auto. }
-    intros s0 b0 i0 E. inversion E; subst. auto.
+    destruct (from_corner_hist _ s1 oc s' I1 Go) as (R1 & R2 & R3 & R4); auto.
+    destruct (from_corner_block _ s1 oc s' I1 Go Gvo H1 Ns1 Eov E') as (Pn & Yn & K1 & K2 & K3 & K4 & K5 & K6).
+    intros s0 b0 i0 E. inversion E as [[X1 X2 X3]]. clear E. subst s0 b0 i0. split; [auto|]. split; [auto|]. split.
+    { rewrite K1, K2. cbn [s1 with_vf with_vv pcc syms]. apply (R_run opp IFc true bits inits (next_c start :: inits)); auto.
+      exists (next_c start). split; auto. split; [rewrite K5; auto|]. split; [apply next_lt; auto|].
+      intros x Hx Fx. rewrite next_face, HI in Fx. destruct (HIall x Hx Fx). auto. }
+    { (* the new start face shares no vertex with an earlier one *)
+      intros m1 m2 ic1 ic2 Hm E1' E2' x1 x2 Hx1 Hx2 F1 F2 Ev. cbn [rev] in E1', E2'.
+      assert (Lm2 : m2 < length (rev inits) + 1).
+      { assert (m2 < length (rev inits ++ [next_c start])) by (apply nth_error_Some; congruence). rewrite app_length in H. cbn in H. lia. }
+      assert (L1 : m1 < length (rev inits)) by lia.
+      rewrite nth_error_app1 in E1' by auto.
+      destruct (Nat.lt_ge_cases m2 (length (rev inits))) as [L2|L2].
+      - rewrite nth_error_app1 in E2' by auto. apply (HD m1 m2 ic1 ic2 Hm E1' E2' x1 x2); auto.
+      - rewrite nth_error_app2 in E2' by auto.
+        assert (H : m2 - length (rev inits) = 0) by lia.
+        rewrite H in E2'. cbn in E2'. inversion E2'; subst ic2. rewrite next_face, HI in F2.
+        assert (W1 : nth (x1 / 3) (vf s) false = true).
+        { apply (b_in _ _ _ _ _ _ B0). apply in_or_app. right. rewrite F1. apply (in_map (fun c => c / 3)). eapply nth_error_In; eauto. }
+        assert (W2 : nth (x2 / 3) (vf s) false = true).
+        { apply (FANC (vf s) x1 x2); auto.
+          - intros y Hy Hvis. apply (b_vis _ _ _ _ _ _ B0 y Hy Hvis).
+          - apply (b_vis _ _ _ _ _ _ B0 x1 Hx1 W1).
+          - unfold EbEncoder_proofs.nondeg. rewrite F2. auto. }
+        rewrite F2 in W2. congruence. }
   - destruct (HB eq_refl) as (Dn & On & cc & yy & F1 & F2 & F3 & F4 & F5 & F6). clear HI HB.
     destruct (Hhb start Hs Dn On) as (Hn1 & Hn2).
     assert (Dn' : nondeg (next_c start)) by (unfold nondeg, EbEncoder_proofs.nondeg in *; rewrite next_face; auto).
@@ -508,10 +723,20 @@ Proof.
     pose proof (Inv_vv _ s vv' vh' I M Lh) as I1.
     set (s1 := with_vhole (with_vv s vv') vh') in *.
     destruct (from_corner c2v opp hid s1 (Some start)) as [s'| | |] eqn:E'; cbn [ebind]; try (intros s0 b0 i0 E; discriminate).
-    destruct (from_corner_hist _ s1 start s' I1) as (R1 & R2 & R3 & R4); auto.
-    { repeat split; auto. }
-    { intros x0 E0. congruence. }
-    intros s0 b0 i0 E. inversion E; subst. auto.
+    assert (Gs : gate_ok (vv s1) start) by (repeat split; auto).
+    assert (Gvs : gatev (vf s1) start) by (intros x0 E0; congruence).
+    destruct (from_corner_hist _ s1 start s' I1 Gs Gvs) as (R1 & R2 & R3 & R4); auto.
+    assert (Us : nth (start / 3) (vf s1) false = false).
+    { cbn [s1 with_vhole with_vv vf]. destruct (nth (start / 3) (vf s) false) eqn:Q; auto. exfalso.
+      assert (V2 : nth (cc / 3) (vf s) false = true).
+      { apply (FANC (vf s) yy cc); auto.
+        - intros y Hy Hvis. apply (b_vis _ _ _ _ _ _ B0 y Hy Hvis).
+        - unfold EbEncoder_proofs.nondeg. rewrite F1. auto.
+        - rewrite <- (prev_face yy), <- F6. auto. }
+      rewrite F1 in V2. congruence. }
+    destruct (from_corner_block _ s1 start s' I1 Gs Gvs Hh Ns Us E') as (Pn & Yn & K1 & K2 & K3 & K4 & K5 & K6).
+    intros s0 b0 i0 E. inversion E as [[X1 X2 X3]]. clear E. subst s0 b0 i0. split; [auto|]. split; [auto|]. split; [|auto].
+    rewrite K1, K2. cbn [s1 with_vhole with_vv pcc syms]. apply (R_run opp IFc false bits inits inits); auto.
 Qed.
 
 Lemma ec_fold_hist l : Forall (fun c => c < 3 * nf) l -> forall done st, ECinv c2v opp nf nv nh done st -> ECH st ->
@@ -529,7 +754,8 @@ Theorem encode_hist vh niso ndeg o : length vh = nh ->
   exists s bits inits,
     o_syms o = rev (syms s) /\ o_events o = rev (evs s) /\ o_bits o = rev bits /\ o_pcc o = pcc s ++ rev inits /\
     Inv (faces (rev inits)) s /\ Forall (fun c => c < 3 * nf) inits /\ length inits = count_occ bool_dec bits true /\
-    (forall nxt, hist (faces (rev inits)) nxt (pcc s) (syms s)) /\ NSI s.
+    (forall nxt, hist (faces (rev inits)) nxt (pcc s) (syms s)) /\ NSI s /\
+    RUNS opp IFc bits inits (pcc s) (syms s) /\ IDJ inits.
 Proof.
   intros Lh FH E. unfold eb_encode in E. rewrite NF_eq in E. destruct (nf =? ndeg); [discriminate|]. rewrite FH in E. cbn [ebind] in E.
   rewrite (NC_eq c2v nf Hlen) in E.
@@ -539,12 +765,13 @@ Proof.
   { exists (init_est nf nv vh), [], []. split; auto. split. apply (init_Inv c2v opp); auto. split; auto. split; auto.
     split; [|split; [intros i []|simpl; lia]]. intros x y (_ & Vx & _). cbn [init_est vf] in Vx. rewrite nth_repeat_false in Vx. discriminate. }
   assert (H0 : ECH (EOk (init_est nf nv vh, @nil bool, @nil nat))).
-  { intros s b i X. inversion X; subst. cbn. split; [intros; constructor|]. intros _. auto. }
+  { intros s b i X. inversion X; subst. cbn. split; [intros; constructor|]. split; [intros _; auto|]. split; [constructor|].
+    intros m1 m2 ic1 ic2 _ X1. destruct m1; discriminate. }
   pose proof (ec_fold_ok c2v opp nf nv nh hid Hlen OK Hv Hhl Hhr Hhb EH FI ENDH FANC _ Fa [] _ I0) as (s & bits & inits & Ef & I & Fi & Cb & CL & DN & T3).
-  pose proof (ec_fold_hist _ Fa [] _ I0 H0 s bits inits Ef) as (Hh & Ns).
+  pose proof (ec_fold_hist _ Fa [] _ I0 H0 s bits inits Ef) as (Hh & Ns & HR & HD).
   rewrite Ef in E. cbn [ebind] in E. inversion E; subst o. cbn [o_syms o_events o_bits o_pcc].
   exists s, bits, inits. split; [reflexivity|]. split; [reflexivity|]. split; [reflexivity|]. split; [reflexivity|].
-  split; [exact I|]. split; [exact Fi|]. split; [exact Cb|]. split; [exact Hh|exact Ns].
+  split; [exact I|]. split; [exact Fi|]. split; [exact Cb|]. split; [exact Hh|]. split; [exact Ns|]. split; [exact HR|exact HD].
 Qed.
 
 Lemma nvis_of_vis P I k o : k < length P -> NoDup (faces (P ++ I)) -> vis_o (skipn (S k) P) (faces I) o -> nvis (P ++ I) k o.
@@ -570,15 +797,19 @@ Theorem encode_facts vh niso ndeg o : length vh = nh ->
   length Y + count_occ bool_dec (o_bits o) true = length Q /\
   NoDup (faces Q) /\
   (forall k y, nth_error Y k = Some y -> efact c2v opp nf Q k (nth k Q 0) y) /\
-  (~ In 1%Z Y -> o_events o = []).
+  (~ In 1%Z Y -> o_events o = []) /\
+  RUNS opp (IFc' c2v opp nf) (rev (o_bits o)) (rev (skipn (length Y) Q)) (firstn (length Y) Q) Y /\
+  (forall m1 m2, m1 < m2 -> length Y + m2 < length Q -> forall x1 x2, x1 < 3 * nf -> x2 < 3 * nf ->
+     x1 / 3 = nth (length Y + m1) Q 0 / 3 -> x2 / 3 = nth (length Y + m2) Q 0 / 3 -> vtx c2v x1 <> vtx c2v x2).
 Proof.
-  intros Lh FH E Q Y. destruct (encode_hist vh niso ndeg o Lh FH E) as (s & bits & inits & E1 & E2 & E3 & E4 & I & Fi & Cb & Hh & Ns).
+  intros Lh FH E Q Y. destruct (encode_hist vh niso ndeg o Lh FH E) as (s & bits & inits & E1 & E2 & E3 & E4 & I & Fi & Cb & Hh & Ns & HR & HD).
   pose proof (i_base _ _ _ _ _ _ I) as B0.
   destruct (hist_nth _ _ _ _ (Hh None)) as [Ln Fk].
   assert (EY : Y = syms s) by (unfold Y; rewrite E1, rev_involutive; auto).
   assert (EQ : Q = pcc s ++ rev inits) by (unfold Q; auto).
   assert (ND : NoDup (faces (pcc s ++ rev inits))) by (unfold faces; rewrite map_app; apply B0).
-  split; [|split; [|split]].
+  assert (LY : length Y = length (pcc s)) by (rewrite EY; apply (i_len _ _ _ _ _ _ I)).
+  split; [|split; [|split; [|split; [|split]]]].
   - rewrite EY, EQ, app_length, rev_length, E3, count_occ_rev, <- Cb. lia.
   - rewrite EQ. auto.
   - intros k y Ey. rewrite EY in Ey.
@@ -611,6 +842,19 @@ Proof.
         unfold faces. rewrite <- map_app. apply (in_map (fun c => c / 3)). auto.
     + right. right. right. right. auto.
   - intros N. rewrite EY in N. destruct (Ns N) as [_ Ev]. rewrite E2, Ev. reflexivity.
+  - rewrite E3, rev_involutive, EQ, LY, firstn_app, Nat.sub_diag, firstn_all, skipn_app, Nat.sub_diag, skipn_all. cbn [firstn skipn app].
+    rewrite app_nil_r, rev_involutive, EY. apply (RUNS_impl opp IFc); auto.
+    intros ic (A1 & A2). split; auto. intros t Ht Ft. destruct (A2 t Ht Ft) as (B1 & B2). split; auto.
+    intros x Hx Nx Vx. split.
+    + intro X. destruct (Hhb (next_c x)) as [_ Y0]; auto. apply next_lt; auto. rewrite next_face; auto.
+      rewrite prev_next, Vx in Y0. congruence.
+    + intro X. destruct (Hhb (prev_c x)) as [Y0 _]; auto. apply prev_lt; auto. rewrite prev_face; auto.
+      rewrite next_prev, Vx in Y0. congruence.
+  - intros m1 m2 Hm Hl x1 x2 Hx1 Hx2 F1 F2. rewrite EQ, app_length, rev_length in Hl.
+    rewrite EQ, LY in F1, F2. rewrite app_nth2 in F1, F2 by lia.
+    replace (length (pcc s) + m1 - length (pcc s)) with m1 in F1 by lia.
+    replace (length (pcc s) + m2 - length (pcc s)) with m2 in F2 by lia.
+    apply (HD m1 m2 (nth m1 (rev inits) 0) (nth m2 (rev inits) 0)); auto; apply nth_error_nth'; rewrite rev_length; lia.
 Qed.
 
 End Enc.
@@ -623,7 +867,10 @@ Theorem encode_facts_wf c2v opp nf nv niso ndeg o :
   length Y + count_occ bool_dec (o_bits o) true = length Q /\
   NoDup (faces Q) /\
   (forall k y, nth_error Y k = Some y -> efact c2v opp nf Q k (nth k Q 0) y) /\
-  (~ In 1%Z Y -> o_events o = []).
+  (~ In 1%Z Y -> o_events o = []) /\
+  RUNS opp (IFc' c2v opp nf) (rev (o_bits o)) (rev (skipn (length Y) Q)) (firstn (length Y) Q) Y /\
+  (forall m1 m2, m1 < m2 -> length Y + m2 < length Q -> forall x1 x2, x1 < 3 * nf -> x2 < 3 * nf ->
+     x1 / 3 = nth (length Y + m1) Q 0 / 3 -> x2 / 3 = nth (length Y + m2) Q 0 / 3 -> vtx c2v x1 <> vtx c2v x2).
 Proof.
   intros Hlen OK Hv FAN E.
   assert (FAN' : forall c c', c < 3 * nf -> c' < 3 * nf -> is_degenerated c2v (c / 3) = false ->
